@@ -132,6 +132,7 @@ type VCtx struct {
 	assumed     map[string]bool
 	strConsts   map[string]Term
 	ufs         map[string]bool
+	epochs      int
 	sorts       map[string]string
 }
 
@@ -449,6 +450,7 @@ type callLog struct {
 }
 
 type State struct {
+	epoch   int // heap-function epoch: bumped whenever unknown code may have written the heap
 	refVals map[string]Val // reference term -> the structural pointer / interface value stored under it
 	keep    []Term // facts that survive a modular loop cut
 	matObjs map[string]ObjID // reference term -> backing array object of a nested slice
@@ -464,7 +466,7 @@ type State struct {
 }
 
 func (s *State) clone() *State {
-	n := &State{c: s.c, objs: make(map[ObjID]Val, len(s.objs)), regs: make(map[ssa.Value]Val, len(s.regs)), symObjs: make(map[string]ObjID, len(s.symObjs))}
+	n := &State{c: s.c, objs: make(map[ObjID]Val, len(s.objs)), regs: make(map[ssa.Value]Val, len(s.regs)), symObjs: make(map[string]ObjID, len(s.symObjs)), epoch: s.epoch}
 	for k, v := range s.objs {
 		n.objs[k] = v
 	}
@@ -497,7 +499,7 @@ func (s *State) clone() *State {
 
 // snapshot: heap only (for old()).
 func (s *State) snapshot() *State {
-	n := &State{c: s.c, objs: make(map[ObjID]Val, len(s.objs)), regs: s.regs, symObjs: make(map[string]ObjID, len(s.symObjs))}
+	n := &State{c: s.c, objs: make(map[ObjID]Val, len(s.objs)), regs: s.regs, symObjs: make(map[string]ObjID, len(s.symObjs)), epoch: s.epoch}
 	for k, v := range s.objs {
 		n.objs[k] = v
 	}
@@ -940,7 +942,9 @@ func (s *State) resolve(p PtrV) (PtrV, bool) {
 	if !ok {
 		id = s.c.newObj()
 		s.symObjs[p.Sym] = id
-		s.objs[id] = s.freshVal(pt.Elem(), "*"+strings.Trim(p.Sym, "|"), 0)
+		// the pointee's fields are heap functions of the reference: two dereferences of equal
+		// references read the same values, also under quantifiers
+		s.objs[id] = s.heapVal(pt.Elem(), Term{p.Sym, SRef}, typeKey(pt.Elem()))
 	}
 	return PtrV{Obj: id, Path: p.Path, Typ: p.Typ}, true
 }
@@ -1119,4 +1123,86 @@ func (s *State) eqVal(a, b Val) Term {
 	}
 	s.c.unsup("equality of %T and %T", a, b)
 	return s.c.fresh("eq_unknown", SBool)
+}
+
+// ---------------------------------------------------------------------------
+// Symbolic heap for objects reached through unknown pointers: every field is an uninterpreted
+// function of the object's reference (per heap epoch). Writes through a dereferenced pointer
+// update the materialised copy (found again through the same reference term); unknown code
+// starts a new epoch.
+// ---------------------------------------------------------------------------
+
+func (s *State) hfun(name, sort, axiomFmt string) string {
+	fn := fmt.Sprintf("hp_%s!e%d", name, s.epoch)
+	ax := ""
+	if axiomFmt != "" {
+		ax = strings.ReplaceAll(axiomFmt, "$F", fn)
+	}
+	s.c.declareHeap(fn, sort, ax)
+	return fn
+}
+
+func (s *State) bumpEpoch() {
+	s.epoch = s.c.nextEpoch()
+}
+
+func (c *VCtx) nextEpoch() int { c.epochs++; return c.epochs }
+
+func (s *State) heapVal(t types.Type, ref Term, name string) Val {
+	p := s.c.pkg
+	switch u := t.Underlying().(type) {
+	case *types.Struct:
+		sv := StructV{Typ: t}
+		for i := 0; i < u.NumFields(); i++ {
+			sv.F = append(sv.F, s.heapVal(u.Field(i).Type(), ref, name+"_"+u.Field(i).Name()))
+		}
+		return sv
+	case *types.Pointer:
+		return PtrV{Sym: app(SRef, s.hfun(name, SRef, ""), ref).S, Typ: t}
+	case *types.Interface:
+		return IfaceV{Tag: app(SRef, s.hfun(name, SRef, ""), ref), Typ: t}
+	case *types.Slice:
+		if p.nestable(u.Elem(), 0) {
+			r2 := app(SRef, s.hfun(name+"_aref", SRef, ""), ref)
+			ln := app(SInt, s.hfun(name+"_alen", SInt, "(assert (forall ((r Ref)) (! (and (<= 0 ($F r)) (<= ($F r) "+pow2(maxLenBits).String()+")) :pattern (($F r)))))"), ref)
+			return s.matSlice(r2, ln, t)
+		}
+		return s.freshVal(t, name, 0)
+	case *types.Map:
+		ks := s.keySort(u.Key())
+		m := MapV{Typ: t}
+		m.Dom = app("(Array "+ks+" Bool)", s.hfun(name+"_dom", "(Array "+ks+" Bool)", ""), ref)
+		m.Vals = s.heapTreeK(u.Elem(), ks, ref, name+"_val")
+		m.Len = app(SInt, s.hfun(name+"_mlen", SInt, "(assert (forall ((r Ref)) (! (<= 0 ($F r)) :pattern (($F r)))))"), ref)
+		m.Nil = app(SBool, s.hfun(name+"_mnil", SBool, ""), ref)
+		return m
+	case *types.Array:
+		return s.freshVal(t, name, 0)
+	}
+	sort := p.scalarSort(t)
+	if sort == "" {
+		sort = SRef
+	}
+	ax := ""
+	if ii, ok := p.intInfo(t); ok && !ii.bv {
+		ax = "(assert (forall ((r Ref)) (! (and (<= " + bigLit(ii.min()).S + " ($F r)) (<= ($F r) " + bigLit(ii.max()).S + ")) :pattern (($F r)))))"
+	}
+	return Scalar{app(sort, s.hfun(name, sort, ax), ref), t}
+}
+
+func (s *State) heapTreeK(t types.Type, ks string, ref Term, name string) SeqTreeK {
+	p := s.c.pkg
+	if st, ok := t.Underlying().(*types.Struct); ok {
+		tr := SeqTreeK{Typ: t}
+		for i := 0; i < st.NumFields(); i++ {
+			tr.Fields = append(tr.Fields, s.heapTreeK(st.Field(i).Type(), ks, ref, name+"_"+st.Field(i).Name()))
+		}
+		return tr
+	}
+	es := p.scalarSort(t)
+	if es == "" {
+		es = SRef
+	}
+	srt := "(Array " + ks + " " + es + ")"
+	return SeqTreeK{Arr: app(srt, s.hfun(name, srt, ""), ref), Typ: t}
 }
